@@ -303,6 +303,46 @@ class C09(fw.Prop):
                 mid = data[1:-1] + extra
                 yield mk({"op": "fault", "parser": kind, "orig": data.hex(), "bad": (b"\x7e" + mid + x25_ref(mid) + b"\x7e").hex(),
                           "tag": "extend-refcs"})
+        # constructed corruptions: two information bytes replaced so that the check sequence of the altered content is the received
+        # one with its two bytes swapped / complemented / reversed bitwise (what a comparison in the wrong byte or bit order, or of
+        # the wrong register, would take for a match) - exactly one such pair of bytes exists for each target
+        tab = []
+        for i in range(256):
+            r = i
+            for _ in range(8):
+                r = (r >> 1) ^ 0x8408 if r & 1 else r >> 1
+            tab.append(r)
+
+        def reg_run(reg, bs):
+            for b in bs:
+                reg = (reg >> 8) ^ tab[(reg ^ b) & 0xFF]
+            return reg
+        withinfo = [(k, d) for k, d in valid if k in ("i", "ui", "ua") and 16 <= len(d) <= 60]
+        import random as _random
+        rng2 = _random.Random(len(valid))          # (own stream: the cases that follow are drawn as before)
+        for kind, data in rng2.sample(withinfo, min(len(withinfo), 12 if deep else 4)):
+            content, fcs = data[1:-3], data[-3:-1]
+            pos = len(content) - 2 - rng2.randrange(0, min(4, len(content) - 11))       # two bytes inside the information field
+            pre = reg_run(0xFFFF, content[:pos])
+            suffix = content[pos + 2:]
+            bitrev = bytes(int(f"{b:08b}"[::-1], 2) for b in fcs)
+            for name, target in (("swapped", fcs[::-1]), ("complemented", bytes(b ^ 0xFF for b in fcs)), ("bit-reversed", bitrev), ("bit-reversed-swapped", bitrev[::-1])):
+                if target == fcs:
+                    continue
+                want = (target[0] | target[1] << 8) ^ 0xFFFF
+                found = None
+                for u in range(256):
+                    r1 = (pre >> 8) ^ tab[(pre ^ u) & 0xFF]
+                    for v in range(256):
+                        r2 = (r1 >> 8) ^ tab[(r1 ^ v) & 0xFF]
+                        if reg_run(r2, suffix) == want:
+                            found = bytes([u, v])
+                            break
+                    if found:
+                        break
+                if found and found != content[pos:pos + 2]:
+                    bad = b"\x7e" + content[:pos] + found + suffix + fcs + b"\x7e"
+                    yield mk({"op": "fault", "parser": kind, "orig": data.hex(), "bad": bad.hex(), "tag": "fcs-" + name})
         pool2 = rng.sample(tiny, min(len(tiny), 8)) if deep else rng.sample(tiny, min(len(tiny), 3))
         for kind, data in pool2:
             nbits = len(data) * 8
